@@ -176,6 +176,23 @@ func (q *Queue) FirstKey() (uint64, error) {
 	return resp.firstKey, resp.err
 }
 
+// First returns the first item in the queue, or nil if the queue is empty. The
+// item is not removed and the read position of the queue is not affected.
+func (q *Queue) First() (*Event, error) {
+	select {
+	case <-q.done:
+		return nil, ErrQueueClosed
+	default:
+	}
+	req := queryReq{respChan: make(chan queryResp)}
+	q.queryChan <- req
+	resp := <-req.respChan
+	if resp.err != nil || resp.isEmpty {
+		return nil, resp.err
+	}
+	return &Event{Index: resp.firstKey, Data: resp.firstData}, nil
+}
+
 // HighestKey returns the index of the highest item ever inserted into the queue.
 func (q *Queue) HighestKey() (uint64, error) {
 	select {
@@ -367,6 +384,7 @@ func (q *Queue) run(highestKey uint64) {
 		case req := <-q.queryChan:
 			var isEmpty bool
 			var l int
+			var firstData []byte
 			firstKey := uint64(0)
 			err := q.db.View(func(tx *bbolt.Tx) error {
 				bucket := tx.Bucket(bucketName)
@@ -374,9 +392,10 @@ func (q *Queue) run(highestKey uint64) {
 				isEmpty = (l == 0)
 				if !isEmpty {
 					c := bucket.Cursor()
-					k, _ := c.First()
+					k, v := c.First()
 					if k != nil {
 						firstKey = btouint64(k)
+						firstData = slices.Clone(v)
 					}
 				}
 				return nil
@@ -384,6 +403,7 @@ func (q *Queue) run(highestKey uint64) {
 			req.respChan <- queryResp{
 				err:        err,
 				firstKey:   firstKey,
+				firstData:  firstData,
 				hasNext:    nextEv != nil,
 				isEmpty:    isEmpty,
 				len:        l,
@@ -430,6 +450,7 @@ type queryReq struct {
 type queryResp struct {
 	hasNext    bool
 	firstKey   uint64
+	firstData  []byte
 	isEmpty    bool
 	len        int
 	highestKey uint64
